@@ -6,8 +6,7 @@ HARNESS = "c05"
 DRIVER = "c05"
 PROPS_MODULE = "OxyModel.Props.C12"
 AUDIT = "OxyModel/Audit/C12.lean"
-THEOREMS = ["C12.C12_ramp_bound", "C12.C12_refuse_only_if", "C12.C12_pass_only_below",
-            "C12.C12_first_after_is_standby", "C12.C12_retrip"]
+THEOREMS = ["C12.C12_ramp_bound", "C12.C12_refuse_only_if", "C12.C12_pass_only_below", "C12.C12_first_after_is_standby", "C12.C12_retrip", "C12.C12_retrip_fused"]
 RACE = False
 JOBS = 8
 RULE = ("scenario = trip, then arrivals swept over the recovery period on grids of 1/4..1/64 of its length (bursts, trickles, idle gaps, dense, "
@@ -19,14 +18,17 @@ RULE = ("scenario = trip, then arrivals swept over the recovery period on grids 
 ASSUMPTIONS = ["float64 rounding in targetRatio/computeRatio is not modelled: the model decides e < t exactly; inputs closer than 2^-40 relative "
                "(other than exact ties on which the double computation is exact) are excluded by the generator and counted",
                "time stamps never decrease; durations fit in int64 ns and 2*dur*(allowed+1) in 2^63 is irrelevant to the model (unbounded Nat)",
-               "activateFallback is one atomic step (C09)"]
+               "the model's atomic steps are arrive (activateFallback under CircuitBreaker.m), record (metrics.Record, under RTMetrics' own locks, NOT under c.m) and check (checkAndSet under c.m); the theorems hold for every interleaving of these steps (C09 lock facts: each is atomic). The correspondence run realises: whole completions (record;check back to back), arrivals parked inside the lock, and through `finish2` the schedule Record_1 Record_2 <decision> checkAndSet checkAndSet (both responses recorded before either check); other finer schedules (e.g. the clock advancing between a request's Record and its checkAndSet) are not exercised and rest on the theorems plus the C09 lock discipline"]
 TRUSTED = ["recovery start and state are observed through CircuitBreaker.String() after every op"]
 MANIFEST = {
     "text": ("Proof: Lean 4 theorems C12_ramp_bound (passed*2*dur <= elapsed*(passed+refused) at every instant of every recovery period, counted "
              "on the observed answers, any arrival pattern), C12_refuse_only_if / C12_pass_only_below (a request is refused iff passing it would "
              "reach the ramp), C12_first_after_is_standby, C12_retrip (re-trip on a true condition, then the C05 shield) about CB.RC.allow / "
              "CB.arrive; tied to ratio.go / cbreaker.go by a differential run of the real CircuitBreaker and the compiled model."),
-    "note": ("Trusted: Lean kernel; standard axioms; model validated on generated scenarios only; float64 ramp comparison modelled by exact "
+    "note": ("Reading of the statement: the request that starts the recovery (always refused: elapsed 0) is counted among the requests 'since recovery "
+             "began', as the code's counters do (denied starts at 1); under the other reading (excluding it) the code would exceed the ramp, e.g. 0 passed / 2 "
+             "refused at 0.7*dur passes the next request (1/3 < 0.35) and 1 of the 2 later requests has passed. Theorems and monitor both use the inclusive "
+             "count. Trusted: Lean kernel; standard axioms; model validated on generated scenarios only; float64 ramp comparison modelled by exact "
              "integer cross-multiplication (dyadic ties included, sub-2^-40 gaps excluded and counted); atomic steps (C09); monotone clock."),
     "technique": "Lean 4 proof (segment invariant of the recovery period) + differential correspondence with cbreaker.CircuitBreaker",
 }
